@@ -24,3 +24,7 @@ open RdfModel RdfModel.C17
 #print axioms RdfModel.C17.dataset_flatten_export_repaired_partial
 #print axioms RdfModel.C17.cross_graph_split_repaired
 #print axioms RdfModel.C17.not_dataset_flatten_export_all_repaired
+#print axioms RdfModel.C17.history_state
+#print axioms RdfModel.C17.export_independent_of_history
+#print axioms RdfModel.C17.abandoned_export_prefix
+#print axioms RdfModel.C17.flatten_export_after_history
